@@ -359,6 +359,11 @@ def c09(tier):
             for ty in (1, 2, 3, 4, 5, 6):
                 S.add("getstr 1 %d" % ty)
             S.add("getmeta 1 cues 0 0", "read 1 s f 30", "close 1")
+    # failing opens that go through the resource fork reader: the fork cut short at every length
+    S.scn(fmt="0x160002", ch=1, kind="badopen_sd2", relax=1)
+    S.add("file 1 new", "open 0 path w 1 %d 1 %d" % (0x160002, RATE), "write 0 s f 20 gen noise 5 0", "close 0")
+    for n in list(range(0, 40)) + [64, 128, 256]:
+        S.add("rsrc 1 %d" % (-2 - n), "open 1 path r 1 0 0 0", "close 1", "rsrc 1 -1")
     # failing opens: unknown formats, zero channels, garbage input
     S.scn(kind="badopen")
     S.add("file 1 new", "open 0 vio w 1 0 1 8000", "open 0 vio w 1 0x10002 0 8000", "open 0 vio w 1 0x10002 1 0", "open 0 vio w 1 0x19990002 1 8000",
@@ -483,6 +488,13 @@ def c14(tier):
         gen_env.c14_scenario(S, fmt, ch, RATE, rng)
         if scen.major(fmt) in (1, 2, 3, 0x13) and scen.is_granular(fmt) and ch == 1:
             gen_env.c14_scenario(S, fmt, ch, RATE, rng, N=3)          # embedded files shorter than a WAV header
+    # valid files this library did not write, through every route (AU with annotations up to and beyond the header cache limit,
+    # hand-built AIFF / WAV with the chunk types the library never writes)
+    for nann in (4, 40, 1000, 51176, 51177, 60000) if tier == "quick" else (0, 1, 4, 40, 1000, 8192, 51175, 51176, 51177, 51200, 60000, 90000, 110000):
+        for ch in (1, 2):
+            gen_env.c14_foreign(S, gen_seeds.au_annotated(nann, ch), ch, rng)
+    for fmt, ch, data, do in gen_seeds.crafted()[:6]:
+        gen_env.c14_foreign(S, data, ch, rng, routes=("vio", "fd", "path", "pipe") if scen.major(fmt) != 0x13 else ("vio", "fd", "path"))
     mcs = [gen_core.mc_rw("R", 2, tag=tier[0])]
     return core_check("C14", tier, mcs, S.lines, "DESIGN.md section 6 C14",
                       "every writable format x channels: written through {vio, fd close_desc=1, fd close_desc=0, path} (byte identity by SameBytesOK, descriptor closed iff close_desc by CloseOK) and read back through {vio, fd, fdk, path, embedded at offset 44 and 4096 with leading/trailing junk, pipe for WAV/AIFF/AU granular}: same info and samples (shared content), garbage fails the same way on every route",
@@ -518,11 +530,16 @@ def c16(tier):
             S.add("file 1 new", "open 0 path w 1 %d %d %d" % (fmt, ch, RATE), "setstr 0 1 5469746c65", "write 0 s f 64 gen noise 5 0", "close 0")
             for k in range(k0, k0 + 200):
                 S.add("rsrc 1 %d" % k, "open 1 path r 1 0 0 0", "read 1 s f 5", "close 1", "rsrc 1 -1")
+            if k0 == 0:          # the fork cut short at every length up to 80 bytes and at a few longer ones
+                for n in list(range(0, 80)) + [100, 200, 300, 400, 440]:
+                    S.add("rsrc 1 %d" % (-2 - n), "open 1 path r 1 0 0 0", "read 1 s f 5", "close 1", "rsrc 1 -1")
     # files rich in metadata (strings, chunks, cue points, bext, cart, channel map) rejected at many parse depths: mutated seeds
     od = os.path.join(vlib.ROOT, "out", "C16", tier)
     os.makedirs(od, exist_ok=True)
     seeds = gen_c03.seed_files(exe, fmts, RATE, od)
     gen_c03.scenarios(S, seeds, rng, 40 if tier == "quick" else 600, routes=("vio", "fd", "path"), ncalls=4, systematic=1 if tier == "quick" else 2)
+    if tier == "quick":      # chunked containers: hostile values (0, 0xFFFF ...) in every header field as well
+        gen_c03.scenarios(S, [x for x in seeds if scen.major(x[0]) in (1, 2, 0x18) and scen.sub(x[0]) in (2, 6)], rng, 0, routes=("vio",), ncalls=3, systematic=2)
     gen_c03.scenarios(S, gen_seeds.crafted(), rng, 40 if tier == "quick" else 600, routes=("vio", "fd", "path"), ncalls=4, systematic=2)
     mcs = [gen_core.mc_rw("R", 2, tag=tier[0])]
     return core_check("C16", tier, mcs, S.lines, "DESIGN.md section 6 C16",
@@ -585,7 +602,7 @@ def c10(tier):
     if tier == "quick":
         # on every change: a sub-grid that still reaches every rejection rule (bounds of channels and rate, every format word)
         chans = [0, 1, 2, 3, 9, 256, 257, 1024, 1025]
-        rates = [0, 1, 44100]
+        rates = [0, 1, 44100, 2147483647]
     enum_lines = []
     for kind, cnt in (("major", len(en["majors"])), ("subtype", len(en["subtypes"])), ("simple", len(en["simple"]))):
         for i in range(-2, cnt + 3):
